@@ -264,6 +264,10 @@ pub fn run(tier: Tier, seed: u64, tally: &mut Tally) -> CheckMeta {
         structured.push(("lcg-lowentropy", seed.wrapping_add(s), 65536));
         structured.push(("lcg", seed.wrapping_add(s), 777));
     }
+    // very long runs: one code of the compressed form stands for thousands of bytes
+    structured.push(("run", 0, 1_000_000));
+    structured.push(("run", 0x41, 1_500_000));
+    structured.push(("run", 255, 3_000_000));
     structured.sort();
     structured.dedup();
     if tier.thorough() {
